@@ -70,7 +70,7 @@ def b01 (s : String) : Bool := s == "1"
 * `clean.pmatch path=<path> pat=<enc>` → `1` | `0`                       (`PurePosixPath(path).match(pat)`)
 * `clean.list base=<path> tree=<tokens> roots=<paths> known=<paths> exclpaths=<paths> excl=<enc,…> dirs=0|1`
   → `listed=<paths>`                                                      (`_find_all_unknown_paths`)
-* `clean.run base= tree= roots= root= config=<path>|- mods= nodes= excl= dirs= mode=dry|force|inter yes=<paths>
+* `clean.run base= tree= roots= root= config=<path>|- mods= nodes= dnodes= excl= dirs= mode=dry|force|inter yes=<paths>
    git=0|1 top=<path>|- tracked=<relative paths>` → `listed=<paths> tree=<d|f>:<path>,…`   (the command)
 -/
 def cleanHandle (st : CleanSt) (cmd : String) (a : Args) : CleanSt × String :=
@@ -98,6 +98,7 @@ def cleanHandle (st : CleanSt) (cmd : String) (a : Args) : CleanSt × String :=
       let sess : Session := {
         root := decPath (a.get "root"), config := opt "config", paths := decPaths (a.get "roots"),
         taskPaths := decPaths (a.get "mods"), nodePaths := decPaths (a.get "nodes"),
+        provisionalPaths := decPaths (a.get "dnodes"),
         userExclude := (splitList (a.get "excl")).map decName, directories := b01 (a.get "dirs"),
         git := { installed := b01 (a.get "git"), top := opt "top", tracked := decPaths (a.get "tracked") } }
       let fs := wrapBase base forest
